@@ -6,8 +6,6 @@ import re
 
 # (name, exception type name, message regex)
 TABLE = [
-    ("numpy2-setitem-sequence", "ValueError", r"setting an array element with a sequence"),
-    ("numpy2-setitem-sequence", "TypeError", r"only (length-1|0-dimensional) arrays can be converted"),
     ("sklearn-param-validation", "InvalidParameterError", r".*"),
     ("pandas2-fillna-method", "TypeError", r"fillna\(\) got an unexpected keyword argument 'method'"),
     ("numpy2-removed-alias", "AttributeError", r"`?np\.[A-Za-z_0-9]+`? was removed in the NumPy 2\.0"),
@@ -17,7 +15,16 @@ TABLE = [
     ("sklearn-removed-kw", "TypeError", r"got an unexpected keyword argument '(base_estimator|normalize|squared|min_impurity_split)'"),
     ("soft-dependency-missing", "ModuleNotFoundError", r".*"),
 ]
+# signatures that only count when raised at a given site (innermost sktime frame "file:func"):
+# numba-compiled functions do not bounds-check, the pure-Python stub of the layer does
+SITE_TABLE = [
+    # numpy 2 refuses `arr[i] = one_element_array`, which the reduction code does with a regressor's single-row output
+    ("numpy2-setitem-sequence", "ValueError", r"setting an array element with a sequence", r"compose/_reduce\.py:_predict_last_window$"),
+    ("numpy2-setitem-sequence", "TypeError", r"only (length-1|0-dimensional) arrays can be converted", r"compose/_reduce\.py:_predict_last_window$"),
+    ("numba-stub-bounds-check", "IndexError", r"out of bounds", r"dictionary_based/_sfa\.py:_create_word$"),
+]
 _C = [(n, t, re.compile(p)) for n, t, p in TABLE]
+_S = [(n, t, re.compile(p), re.compile(s)) for n, t, p, s in SITE_TABLE]
 
 
 def match(exc, site):
@@ -25,5 +32,9 @@ def match(exc, site):
     msg = str(exc)
     for name, t, rx in _C:
         if t == tn and rx.search(msg):
+            return name
+    sk = (site or (None, None))[0] or ""
+    for name, t, rx, sx in _S:
+        if t == tn and rx.search(msg) and sx.search(sk):
             return name
     return None
